@@ -274,7 +274,8 @@ def run_job(job, acc):
             for i in range(job[2]):
                 base = c08.base_grammar(r)
                 sh = r.choice(common.SHELLS)
-                pk, stmts, _ = c08.plant(r, base, sh)
+                # cycles are the mistakes that make a compiler recurse for ever: every third plant is one
+                pk, stmts, _ = c08.plant(r, base, sh, kind='cycle' if i % 3 == 0 else None)
                 text, _, _ = gast.print_grammar(stmts, layout=r if r.random() < 0.5 else None)
                 exercise(acc, wd, text.encode(), 'planted-' + pk, r, shells=[sh], with_chk=(i % 4 == 0),
                          origin='planted seed=%d #%d' % (job[1], i))
